@@ -7,7 +7,10 @@ def suites : List (String × Suite) := [
   ("c01", Tally.Drv.C01.suite),
   ("c02", Tally.Drv.C02.suite),
   ("scope", Tally.Drv.Scope.suite),
-  ("c19", Tally.Drv.C19.suite)
+  ("c19", Tally.Drv.C19.suite),
+  ("thrift", Tally.Drv.Thrift.suite),
+  ("c20", Tally.Drv.C20.suite),
+  ("c18", Tally.Drv.C18.suite)
 ]
 
 partial def loop (inp : IO.FS.Stream) (out : IO.FS.Stream) (s : Suite) (st : s.σ) : IO Unit := do
